@@ -34,6 +34,9 @@ pub enum Work {
     Outliers { pts: Vec<C>, k: u8 },
     /// cheap collection-producing algorithms on a pair
     Misc { a: G, b: G },
+    /// a history of relate calls on ONE prepared geometry (first / second operand, alternating partners):
+    /// the matrices must not depend on the calls made before
+    Prepared { p: G, partners: Vec<G>, order: Vec<u8> },
 }
 
 #[derive(Clone, Debug, Serialize, Deserialize)]
@@ -128,6 +131,27 @@ pub fn execute(w: &Work) -> String {
             let det = mp.prepared_detector();
             format!("{:?}|{:?}", mp.outliers(k), det.outliers(k))
         }
+        Work::Prepared { p, partners, order } => {
+            use geo::relate::PreparedGeometry;
+            let gp = to_geo(p, &Xf::ID);
+            let gqs: Vec<Geometry<f64>> = partners.iter().map(|q| to_geo(q, &Xf::ID)).collect();
+            let prep = PreparedGeometry::from(&gp);
+            let mut out = String::new();
+            for o in order {
+                let q = &gqs[(*o as usize >> 1) % gqs.len()];
+                let m = if o & 1 == 0 { prep.relate(q) } else { q.relate(&prep) };
+                out += &format!("{:?};", m);
+            }
+            // the same questions asked one by one of a fresh prepared geometry each
+            let mut fresh = String::new();
+            for o in order {
+                let q = &gqs[(*o as usize >> 1) % gqs.len()];
+                let pr = PreparedGeometry::from(&gp);
+                let m = if o & 1 == 0 { pr.relate(q) } else { q.relate(&pr) };
+                fresh += &format!("{:?};", m);
+            }
+            format!("{out}|{}", if fresh == out { "same-as-fresh" } else { fresh.as_str() })
+        }
         Work::Misc { a, b } => {
             let (ga, gb) = (to_geo(a, &Xf::ID), to_geo(b, &Xf::ID));
             let simp = match &ga {
@@ -172,6 +196,7 @@ pub fn work_strategy(large: bool) -> BoxedStrategy<Work> {
         2 => (pts_strategy(), 0u8..6).prop_map(|(pts, k)| Work::KNearest { pts, k }),
         2 => (pts_strategy(), 0u8..5).prop_map(|(pts, k)| Work::Outliers { pts, k }),
         3 => areal_scene_strategy().prop_map(|ArealScene { a, b, .. }| Work::Misc { a, b }),
+        3 => (crate::gen::scene_strategy(4), proptest::collection::vec(any::<u8>(), 2..8)).prop_map(|(s, order)| Work::Prepared { p: s.a, partners: s.partners, order }),
     ];
     if large {
         prop_oneof![
@@ -209,7 +234,7 @@ impl Property for C20 {
         vec!["thread interleavings inside rayon are sampled (pool sizes 1, 2, 3, 16 and repeated runs), not enumerated: this family of technique does not own rayon's scheduler".into()]
     }
     fn must_hit() -> Vec<&'static str> {
-        vec!["work:Bool", "work:Stitch", "work:Triangulate", "work:Concave", "work:KNearest", "work:Outliers", "work:Misc", "multi-member-output"]
+        vec!["work:Bool", "work:Stitch", "work:Triangulate", "work:Concave", "work:KNearest", "work:Outliers", "work:Misc", "work:Prepared", "multi-member-output"]
     }
     fn show(c: &Case) -> Value {
         match &c.work {
@@ -217,6 +242,7 @@ impl Property for C20 {
             Work::Stitch { g, squares } => json!({"Stitch": {"g": wkt(g), "squares": squares}}),
             Work::Triangulate { g, kind } => json!({"Triangulate": {"g": wkt(g), "kind": kind}}),
             Work::Misc { a, b } => json!({"Misc": {"a": wkt(a), "b": wkt(b)}}),
+            Work::Prepared { p, partners, order } => json!({"Prepared": {"p": wkt(p), "partners": partners.iter().map(wkt).collect::<Vec<_>>(), "order": order}}),
             w => serde_json::to_value(w).unwrap_or(Value::Null),
         }
     }
@@ -228,6 +254,13 @@ impl Property for C20 {
                     return;
                 }
                 if matches!(c.work, Work::Bool { .. }) { "Bool" } else { "Misc" }
+            }
+            Work::Prepared { p, partners, order } => {
+                if !in_relate_domain(p) || partners.is_empty() || !partners.iter().all(in_relate_domain) || order.is_empty() {
+                    obs.label("skipped:out-of-domain");
+                    return;
+                }
+                "Prepared"
             }
             Work::Stitch { g, .. } | Work::Triangulate { g, .. } => {
                 if !in_relate_domain(g) || !matches!(g, G::Polygon(_) | G::MultiPolygon(_)) {
@@ -261,6 +294,9 @@ impl Property for C20 {
                 return;
             }
         };
+        if name == "Prepared" {
+            obs.expect(first.ends_with("|same-as-fresh"), "Prepared|history-dependent", || format!("reused prepared geometry vs fresh ones: {first}; work {:?}", Self::show(c)));
+        }
         if multiplicity(&first) >= 2 {
             obs.label("multi-member-output");
             obs.nontrivial();
@@ -331,7 +367,7 @@ impl Property for C20 {
         for (i, w) in works.iter().enumerate() {
             for (threads, r) in &runs {
                 if r.get(i) != Some(&own[i]) {
-                    let name = match w { Work::Bool { .. } => "Bool", Work::GridUnion { .. } => "GridUnion", Work::Comb { .. } => "Comb", Work::Stitch { .. } => "Stitch", Work::Triangulate { .. } => "Triangulate", Work::Concave { .. } => "Concave", Work::KNearest { .. } => "KNearest", Work::Outliers { .. } => "Outliers", Work::Misc { .. } => "Misc" };
+                    let name = match w { Work::Bool { .. } => "Bool", Work::GridUnion { .. } => "GridUnion", Work::Comb { .. } => "Comb", Work::Stitch { .. } => "Stitch", Work::Triangulate { .. } => "Triangulate", Work::Concave { .. } => "Concave", Work::KNearest { .. } => "KNearest", Work::Outliers { .. } => "Outliers", Work::Misc { .. } => "Misc", Work::Prepared { .. } => "Prepared" };
                     fails.push((serde_json::to_value(Case { work: w.clone() }).unwrap(), Failure { key: format!("{name}|differs|fresh-process"), msg: format!("digest {:?} in a fresh process with RAYON_NUM_THREADS={threads:?} vs {} here", r.get(i), own[i]) }));
                     break;
                 }
